@@ -108,6 +108,8 @@ struct FdeView {
     params: String,
     initial: u64,
     len: u64,
+    /// the CIE's address size
+    asz: u8,
     /// (start, end, rules text), `Err` when gimli cannot evaluate the rows to the end
     rows: Result<Vec<(u64, u64, String)>, String>,
 }
@@ -164,7 +166,7 @@ fn view<'a, S: UnwindSection<Rd<'a>>>(s: &S, sec: &'a [u8]) -> Result<Vec<FdeVie
                 }
             }
         })();
-        out.push(FdeView { params, initial: f.initial_address(), len: f.len(), rows });
+        out.push(FdeView { params, initial: f.initial_address(), len: f.len(), asz: f.cie().address_size(), rows });
     }
     Ok(out)
 }
@@ -216,8 +218,8 @@ fn oracle(eh: bool, endian: RunTimeEndian, asz: u8, input: &[u8], output: &[u8])
     if a.len() != b.len() {
         return Some(format!("rows-differ {} FDEs in, {} FDEs out", a.len(), b.len()));
     }
-    let mask: u64 = if asz >= 8 { u64::MAX } else { (1u64 << (8 * asz as u32)) - 1 };
     for (k, (x, y)) in a.iter().zip(b.iter()).enumerate() {
+        let mask: u64 = if x.asz >= 8 || x.asz == 0 { u64::MAX } else { (1u64 << (8 * x.asz as u32)) - 1 };
         if x.params != y.params {
             return Some(format!("cie-params-differ fde {k}: in {} out {}", x.params.replace(' ', ","), y.params.replace(' ', ",")));
         }
@@ -233,7 +235,7 @@ fn oracle(eh: bool, endian: RunTimeEndian, asz: u8, input: &[u8], output: &[u8])
         let (cx, cy) = (canon_rows(rx, x.initial, end), canon_rows(ry, x.initial, end));
         if cx != cy {
             let i = (0..cx.len().min(cy.len())).find(|&i| cx[i] != cy[i]).unwrap_or(cx.len().min(cy.len()));
-            return Some(format!("rows-differ fde {k}: row {i}: in {:?} out {:?}", cx.get(i), cy.get(i)).replace(' ', ""));
+            return Some(format!("rows-differ fde {k}: row {i}: in {} out {}", format!("{:?}", cx.get(i)).replace(' ', ""), format!("{:?}", cy.get(i)).replace(' ', "")));
         }
     }
     None
@@ -728,6 +730,64 @@ fn g_section(rng: &mut Rng, eh: bool, big: bool, asz: u8, plain: bool, focus: Op
     a.out
 }
 
+/// every expression that gimli decodes from the instructions of the section is one of `EXPRS`
+/// (the Model's expression converter is the identity, which is right for those)
+fn exprs_in_pool(eh: bool, big: bool, asz: u8, sec: &[u8]) -> bool {
+    fn scan<'a, S: UnwindSection<Rd<'a>>>(s: &S, sec: &'a [u8]) -> bool {
+        use gimli::CallFrameInstruction as I;
+        let bases = BaseAddresses::default().set_eh_frame(0);
+        let ok = |e: &gimli::UnwindExpression<usize>| sec.get(e.offset..e.offset.wrapping_add(e.length)).map_or(false, |b| EXPRS.contains(&b));
+        let check = |mut it: gimli::CallFrameInstructionIter<'_, Rd<'a>>| -> bool {
+            let mut n = 0;
+            while let Ok(Some(i)) = it.next() {
+                n += 1;
+                if n > 10_000 {
+                    break;
+                }
+                match i {
+                    I::DefCfaExpression { expression } | I::Expression { expression, .. } | I::ValExpression { expression, .. } => {
+                        if !ok(&expression) {
+                            return false;
+                        }
+                    }
+                    _ => {}
+                }
+            }
+            true
+        };
+        let mut it = s.entries(&bases);
+        while let Ok(Some(e)) = it.next() {
+            match e {
+                CieOrFde::Cie(c) => {
+                    if !check(c.instructions(s, &bases)) {
+                        return false;
+                    }
+                }
+                CieOrFde::Fde(p) => {
+                    if let Ok(f) = p.parse(S::cie_from_offset) {
+                        if !check(f.cie().instructions(s, &bases)) || !check(f.instructions(s, &bases)) {
+                            return false;
+                        }
+                    }
+                }
+            }
+        }
+        true
+    }
+    let endian = if big { RunTimeEndian::Big } else { RunTimeEndian::Little };
+    if eh {
+        let mut s = EhFrame::new(sec, endian);
+        s.set_address_size(asz);
+        s.set_vendor(Vendor::AArch64);
+        scan(&s, sec)
+    } else {
+        let mut s = DebugFrame::new(sec, endian);
+        s.set_address_size(asz);
+        s.set_vendor(Vendor::AArch64);
+        scan(&s, sec)
+    }
+}
+
 pub fn gen(ctx: &Ctx, emit: &mut dyn FnMut(String)) {
     let mut rng = ctx.rng(0x12cf);
     let line = |eh: bool, big: bool, asz: u8, sec: &[u8]| format!("c12-cfi {} {} {} {}", if eh { "eh" } else { "df" }, if big { "be" } else { "le" }, asz, hex(sec));
@@ -776,7 +836,9 @@ pub fn gen(ctx: &Ctx, emit: &mut dyn FnMut(String)) {
                 sec[k] = sec[k].wrapping_add(1);
             }
         }
-        emit(line(eh, false, asz, &sec));
+        if exprs_in_pool(eh, false, asz, &sec) {
+            emit(line(eh, false, asz, &sec));
+        }
     }
     let _ = Tier::Quick;
 }
